@@ -2,12 +2,15 @@
   C15 - Definition order does not matter: output is dependency-ordered and complete.
 
   Theorems about the model of topological_sort (ProphyModel/Topo.lean), for EVERY node
-  list (any size, any dependency shape, duplicates included):
-    * whatever the sort returns is a permutation of its input (every definition exactly once);
-    * whatever it returns is dependency-ordered: each node comes after every node it
+  list (any size, any dependency shape, duplicates included, Include nodes anywhere):
+    * whatever the sort returns is a permutation of its input (every node exactly once);
+    * whatever it returns is dependency-ordered: each node comes after every definition it
       depends on (dependencies on builtins and on names not defined in the input are
-      ignored, as the code does);
-    * it always returns or reports a cycle (total by construction: the rotation bound).
+      ignored, as the code does; an Include node defines nothing);
+    * it always returns or reports a cycle (total by construction: the rotation bound);
+    * Include nodes written first stay first and do not influence the order of the definitions
+      (`C15_includes_inert`), which needs that the rotation bound `len(nodes) + 1` is never the
+      reason of a failure that a larger bound would avoid (`settle_fuel`).
 -/
 import ProphyModel.Topo
 namespace Prophy.C15
@@ -62,24 +65,26 @@ theorem sortFrom_perm (total : Nat) (available : List String) :
       injection h with h; subst h
       exact settle_perm _ _ _ _ _ hs
     · rename_i m r' hs
-      cases hrec : sortFrom total available k r' (m.name :: known) with
+      cases hrec : sortFrom total available k r' (if m.incl then known else m.name :: known) with
       | none => simp [hrec] at h
       | some t =>
         simp [hrec] at h; subst h
         have ih := sortFrom_perm total available k r' _ t hrec
         exact (List.Perm.cons m ih).trans (settle_perm _ _ _ _ _ hs)
 
-/-- every definition is listed exactly once: the output is a permutation of the input -/
+/-- every node is listed exactly once: the output is a permutation of the input -/
 theorem C15_sort_permutation (g r : List TNode) (h : sort g = some r) : r.Perm g :=
   sortFrom_perm _ _ _ _ _ _ h
 
 /-- `r` is dependency-ordered relative to the names already `known`: every available
-    dependency of a node is known or defined earlier in `r` -/
+    dependency of a node is known or defined earlier in `r`.  As in `sortFrom`
+    (`if not isinstance(node, Include): known.add(node.name)`) an Include node adds nothing
+    to `known`. -/
 def Ordered (available : List String) : List String → List TNode → Prop
   | _, [] => True
   | known, n :: r =>
     (∀ d ∈ n.deps, available.contains d = true → known.contains d = true) ∧
-      Ordered available (n.name :: known) r
+      Ordered available (if n.incl then known else n.name :: known) r
 
 theorem settle_done (known available : List String) :
     ∀ (fuel : Nat) (s : List TNode) (m : TNode) (r : List TNode),
@@ -120,7 +125,7 @@ theorem sortFrom_ordered (total : Nat) (available : List String) :
     · simp at h
     · injection h with h; subst h; trivial
     · rename_i m r' hs
-      cases hrec : sortFrom total available k r' (m.name :: known) with
+      cases hrec : sortFrom total available k r' (if m.incl then known else m.name :: known) with
       | none => simp [hrec] at h
       | some t =>
         simp [hrec] at h; subst h
@@ -129,16 +134,379 @@ theorem sortFrom_ordered (total : Nat) (available : List String) :
         exact sortFrom_ordered total available k r' _ t (by simp at hlen; omega) hrec
 
 /-- the output is dependency-ordered: each node comes after everything it depends on
-    (among the builtins and the names defined in the input) -/
+    (among the builtins and the names of the non-Include nodes of the input) -/
 theorem C15_sort_ordered (g r : List TNode) (h : sort g = some r) :
-    Ordered (g.map (·.name)) builtins r :=
+    Ordered (availableOf g) builtins r :=
   sortFrom_ordered _ _ _ _ _ _ (Nat.le_refl _) h
 
+/-! ### the ordering statement about definitions only -/
+
+theorem mem_availableOf {g : List TNode} {d : String} :
+    d ∈ availableOf g ↔ ∃ m ∈ g, m.incl = false ∧ m.name = d := by
+  simp [availableOf, and_assoc]
+
+/-- `Ordered`, unfolded at one place of the list: an available dependency of the node at that
+    place is known from the start or is the name of a non-Include node standing before it -/
+theorem Ordered.split (available : List String) :
+    ∀ (pre : List TNode) (known : List String) (n : TNode) (post : List TNode),
+      Ordered available known (pre ++ n :: post) →
+      ∀ d ∈ n.deps, available.contains d = true →
+        known.contains d = true ∨ ∃ m ∈ pre, m.incl = false ∧ m.name = d
+  | [], _, _, _, h, d, hd, ha => Or.inl (h.1 d hd ha)
+  | m :: pre, known, n, post, h, d, hd, ha => by
+    have ih := Ordered.split available pre _ n post h.2 d hd ha
+    rcases ih with hk | ⟨x, hx, hx'⟩
+    · by_cases hm : m.incl = true
+      · simp only [hm, if_true] at hk; exact Or.inl hk
+      · have hm' : m.incl = false := by simpa using hm
+        simp only [hm', Bool.false_eq_true, if_false, List.contains_cons, Bool.or_eq_true,
+          beq_iff_eq] at hk
+        rcases hk with hk | hk
+        · exact Or.inr ⟨m, by simp, hm', hk.symm⟩
+        · exact Or.inl hk
+    · exact Or.inr ⟨x, List.mem_cons_of_mem _ hx, hx'⟩
+
+/-- the simple form, about EVERY node of the result (Include or not): each dependency that is the
+    name of a definition of the input and no builtin is the name of a definition (a non-Include node)
+    standing strictly earlier in the result -/
+theorem C15_sort_ordered_nodes (g r : List TNode) (h : sort g = some r)
+    (pre post : List TNode) (n : TNode) (hr : r = pre ++ n :: post)
+    (d : String) (hd : d ∈ n.deps) (hdef : d ∈ availableOf g) (hb : d ∉ builtins) :
+    ∃ m ∈ pre, m.incl = false ∧ m.name = d := by
+  have ho := C15_sort_ordered g r h
+  rw [hr] at ho
+  rcases Ordered.split _ pre builtins n post ho d hd (by simpa using hdef) with hk | hm
+  · exact absurd (by simpa using hk) hb
+  · exact hm
+
+/-- THE READABLE FORM: when the sort succeeds, every definition `n` of the result (at any of its
+    places: `r = pre ++ n :: post`) comes after each of its dependencies `d` that is the name of a
+    definition (non-Include node) of the input and is no builtin: a non-Include node named `d`
+    stands in `pre`, i.e. STRICTLY earlier.  This also holds for `d = n.name`: a definition that
+    depends on its own name is only sorted (and not reported as a cycle) when ANOTHER definition of
+    that name stands before it, which needs a duplicated name (see `C15_sort_no_self_dependency`). -/
+theorem C15_sort_ordered_definitions (g r : List TNode) (h : sort g = some r)
+    (pre post : List TNode) (n : TNode) (hr : r = pre ++ n :: post) (_hn : n.incl = false)
+    (d : String) (hd : d ∈ n.deps)
+    (hdef : ∃ m ∈ g, m.incl = false ∧ m.name = d) (hb : d ∉ builtins) :
+    ∃ m ∈ pre, m.incl = false ∧ m.name = d :=
+  C15_sort_ordered_nodes g r h pre post n hr d hd (mem_availableOf.2 hdef) hb
+
+/-- the same with positions: the definition at position `i` of the result has each such dependency
+    defined at a position `j < i` -/
+theorem C15_sort_ordered_definitions_idx (g r : List TNode) (h : sort g = some r)
+    (i : Nat) (hi : i < r.length) (_hn : r[i].incl = false)
+    (d : String) (hd : d ∈ r[i].deps)
+    (hdef : ∃ m ∈ g, m.incl = false ∧ m.name = d) (hb : d ∉ builtins) :
+    ∃ (j : Nat) (hj : j < i), (r[j]'(Nat.lt_trans hj hi)).incl = false ∧ (r[j]'(Nat.lt_trans hj hi)).name = d := by
+  have hr : r = r.take i ++ r[i] :: r.drop (i + 1) := by
+    rw [List.getElem_cons_drop, List.take_append_drop]
+  obtain ⟨m, hm, hm'⟩ := C15_sort_ordered_definitions g r h _ _ _ hr _hn d hd hdef hb
+  obtain ⟨j, hj, hjm⟩ := List.mem_take_iff_getElem.1 hm
+  have hji : j < i := by omega
+  exact ⟨j, hji, by rw [hjm]; exact hm'⟩
+
+theorem availableOf_perm {a b : List TNode} (h : a.Perm b) : (availableOf a).Perm (availableOf b) :=
+  (h.filter _).map _
+
+/-- with distinct definition names a sorted definition never depends on its own name
+    (such an input is reported as a cycle) -/
+theorem C15_sort_no_self_dependency (g r : List TNode) (h : sort g = some r)
+    (hnd : (availableOf g).Nodup) (n : TNode) (hn : n ∈ r) (hi : n.incl = false)
+    (hb : n.name ∉ builtins) : n.name ∉ n.deps := by
+  intro hd
+  obtain ⟨pre, post, hr⟩ := List.append_of_mem hn
+  have hp := C15_sort_permutation g r h
+  have hng : n ∈ g := hp.mem_iff.1 hn
+  obtain ⟨m, hm, hmi, hmn⟩ := C15_sort_ordered_definitions g r h pre post n hr hi n.name hd
+    ⟨n, hng, hi, rfl⟩ hb
+  have hnd' : (availableOf r).Nodup := (availableOf_perm hp).nodup_iff.2 hnd
+  rw [hr] at hnd'
+  simp only [availableOf, List.filter_append, List.filter_cons, hi, Bool.not_false, if_true,
+    List.map_append, List.map_cons] at hnd'
+  have := (List.nodup_append.1 hnd').2.2 n.name
+    (List.mem_map.2 ⟨m, List.mem_filter.2 ⟨hm, by simp [hmi]⟩, hmn⟩) n.name (by simp)
+  exact this rfl
+
+/-! ### the rotation bound never cuts a terminating settle short
+
+  `settle` with ANY fuel that gives a result gives the same result with fuel `len(suffix)`:
+  a terminating `while model_sort_rotate()` loop takes every node of the suffix to the front at most
+  once.  (If the node found by `find_first_dep` is one that was already moved to the front at this
+  position, the nodes moved so far depend on each other in a circle and the loop never ends.) -/
+
+/-- the dependency `model_sort_rotate` acts on -/
+def pick (known available : List String) (h : TNode) : Option String :=
+  h.deps.find? (fun d => !known.contains d && available.contains d)
+
+/-- what `find_first_dep` accepts -/
+def isD (d : String) (y : TNode) : Bool := decide (y.name = d ∧ y.incl = false)
+
+theorem rotate_cons (node : TNode) (rest : List TNode) (known available : List String) :
+    rotate (node :: rest) known available =
+      match pick known available node with
+      | none => .done
+      | some dep =>
+        match findIdx dep rest with
+        | some k => .moved (moveFront (node :: rest) (k + 1))
+        | none => .stuck := rfl
+
+theorem findIdx_append (d : String) : ∀ (a b : List TNode), findIdx d (a ++ b) =
+    match findIdx d a with
+    | some k => some k
+    | none => (findIdx d b).map (· + a.length)
+  | [], b => by simp [findIdx]
+  | x :: a, b => by
+    simp only [List.cons_append, findIdx]
+    by_cases hx : x.name = d ∧ x.incl = false
+    · simp [hx]
+    · simp only [hx, if_false, findIdx_append d a b]
+      cases findIdx d a with
+      | some k => simp
+      | none =>
+        cases findIdx d b with
+        | none => simp
+        | some j => simp [Nat.add_assoc]
+
+theorem findIdx_split (d : String) : ∀ (l : List TNode) (k : Nat), findIdx d l = some k →
+    ∃ a y b, l = a ++ y :: b ∧ a.length = k ∧ isD d y = true
+  | [], _, h => by simp [findIdx] at h
+  | x :: l, k, h => by
+    simp only [findIdx] at h
+    by_cases hx : x.name = d ∧ x.incl = false
+    · simp only [hx, and_self, if_true, Option.some.injEq] at h
+      exact ⟨[], x, l, rfl, by simpa using h, by simp [isD, hx]⟩
+    · simp only [hx, if_false, Option.map_eq_some_iff] at h
+      obtain ⟨k', hk', hk⟩ := h
+      obtain ⟨a, y, b, hl, ha, hy⟩ := findIdx_split d l k' hk'
+      exact ⟨x :: a, y, b, by rw [hl]; rfl, by simp [ha, hk], hy⟩
+
+theorem moveFront_split (y : TNode) (b : List TNode) :
+    ∀ a : List TNode, moveFront (a ++ y :: b) a.length = y :: (a ++ b)
+  | [] => by simp [moveFront]
+  | x :: a => by
+    simp only [List.cons_append, List.length_cons, moveFront, moveFront_split y b a]
+
+theorem findIdx_some_of_countP (d : String) :
+    ∀ l : List TNode, 0 < l.countP (isD d) → ∃ k, findIdx d l = some k
+  | [], h => by simp at h
+  | x :: l, h => by
+    simp only [findIdx]
+    by_cases hx : x.name = d ∧ x.incl = false
+    · exact ⟨0, by simp [hx]⟩
+    · have hx' : ¬ isD d x = true := by simp [isD, hx]
+      rw [List.countP_cons_of_neg hx'] at h
+      obtain ⟨k, hk⟩ := findIdx_some_of_countP d l h
+      exact ⟨k + 1, by simp [hx, hk]⟩
+
+theorem settle_nil (known available : List String) (fuel : Nat) :
+    settle known available (fuel + 1) [] = some [] := by
+  simp [settle, rotate]
+
+theorem stuck_diverges (known available : List String) (s : List TNode)
+    (h : rotate s known available = .stuck) : ∀ f, settle known available f s = none
+  | 0 => rfl
+  | f + 1 => by simp only [settle, h]; exact stuck_diverges known available s h f
+
+/-- `h` (a node of `P`) has a dependency to act on that is the name of ANOTHER definition of `P` -/
+def Pts (known available : List String) (P : List TNode) (h : TNode) : Prop :=
+  ∃ d, pick known available h = some d ∧ (if isD d h = true then 1 else 0) < P.countP (isD d)
+
+/-- a front part `P` of the suffix all of whose nodes wait for another node of `P`: the loop never ends -/
+theorem closed_diverges (known available : List String) :
+    ∀ (f : Nat) (P U : List TNode), P ≠ [] → (∀ h ∈ P, Pts known available P h) →
+      settle known available f (P ++ U) = none
+  | 0, _, _, _, _ => rfl
+  | _ + 1, [], _, hne, _ => absurd rfl hne
+  | f + 1, h :: b, U, _, hcl => by
+    obtain ⟨d, hp, hc⟩ := hcl h (by simp)
+    have hb : 0 < b.countP (isD d) := by
+      rw [List.countP_cons] at hc
+      split at hc <;> omega
+    obtain ⟨k, hk⟩ := findIdx_some_of_countP d b hb
+    obtain ⟨a, y, c, hb', hlen, hy⟩ := findIdx_split d b k hk
+    subst hb'
+    have hidx : findIdx d ((a ++ y :: c) ++ U) = some k := by rw [findIdx_append, hk]
+    have hmv : moveFront (h :: ((a ++ y :: c) ++ U)) (k + 1) = (y :: h :: (a ++ c)) ++ U := by
+      have := moveFront_split y (c ++ U) a
+      simp only [moveFront, List.append_assoc, List.cons_append, ← hlen, this]
+    simp only [List.cons_append, settle, rotate_cons, hp, hidx, hmv]
+    apply closed_diverges known available f (y :: h :: (a ++ c)) U (by simp)
+    have hperm : (y :: h :: (a ++ c)).Perm (h :: (a ++ y :: c)) :=
+      (List.Perm.swap h y (a ++ c)).trans (List.Perm.cons h List.perm_middle.symm)
+    intro x hx
+    obtain ⟨d', hp', hc'⟩ := hcl x (hperm.mem_iff.1 hx)
+    exact ⟨d', hp', by rw [hperm.countP_eq]; exact hc'⟩
+
+/-- the suffix is `h :: older ++ U`: `older` are the nodes that were the head before at this position
+    (each waits for another node of `h :: older`), `U` the nodes not moved yet.  A settle that ends
+    needs no more than `len(U)` rotations. -/
+theorem settle_fuel_aux (known available : List String) :
+    ∀ (f f' : Nat) (h : TNode) (older U r : List TNode),
+      (∀ x ∈ older, Pts known available (h :: older) x) →
+      settle known available f ((h :: older) ++ U) = some r → U.length < f' →
+      settle known available f' ((h :: older) ++ U) = some r
+  | 0, _, _, _, _, _, _, hs, _ => by simp [settle] at hs
+  | _ + 1, 0, _, _, _, _, _, _, hf => by omega
+  | f + 1, f' + 1, h, older, U, r, hJ, hs, hf => by
+    have hs0 := hs
+    simp only [List.cons_append, settle, rotate_cons] at hs ⊢
+    cases hp : pick known available h with
+    | none => simp only [hp] at hs ⊢; exact hs
+    | some d =>
+      simp only [hp] at hs ⊢
+      rw [findIdx_append] at hs ⊢
+      cases ho : findIdx d older with
+      | some k =>
+        exfalso
+        obtain ⟨a, y, c, hb', _, hy⟩ := findIdx_split d older k ho
+        have hpos : 0 < older.countP (isD d) := by
+          rw [hb', List.countP_append, List.countP_cons_of_pos hy]; omega
+        have hcl : ∀ x ∈ h :: older, Pts known available (h :: older) x := by
+          intro x hx
+          rcases List.mem_cons.1 hx with rfl | hx
+          · refine ⟨d, hp, ?_⟩
+            rw [List.countP_cons]
+            split <;> omega
+          · exact hJ x hx
+        rw [closed_diverges known available (f + 1) (h :: older) U (by simp) hcl] at hs0
+        cases hs0
+      | none =>
+        simp only [ho] at hs ⊢
+        cases hu : findIdx d U with
+        | none =>
+          exfalso
+          have hst : rotate ((h :: older) ++ U) known available = .stuck := by
+            simp only [List.cons_append, rotate_cons, hp, findIdx_append, ho, hu, Option.map_none]
+          rw [stuck_diverges known available _ hst] at hs0
+          cases hs0
+        | some k =>
+          obtain ⟨a, y, c, hU, hlen, hy⟩ := findIdx_split d U k hu
+          subst hU
+          have hmv : moveFront (h :: (older ++ (a ++ y :: c))) (k + older.length + 1)
+              = (y :: h :: older) ++ (a ++ c) := by
+            have := moveFront_split y c (older ++ a)
+            simp only [List.append_assoc, List.length_append] at this
+            simp only [moveFront, ← hlen, Nat.add_comm a.length, this, List.cons_append]
+          simp only [hu, Option.map_some, hmv] at hs ⊢
+          apply settle_fuel_aux known available f f' y (h :: older) (a ++ c) r ?_ hs
+            (by simp at hf ⊢; omega)
+          intro x hx
+          rcases List.mem_cons.1 hx with rfl | hx
+          · refine ⟨d, hp, ?_⟩
+            rw [List.countP_cons_of_pos hy, List.countP_cons]
+            split <;> omega
+          · obtain ⟨d', hp', hc'⟩ := hJ x hx
+            refine ⟨d', hp', ?_⟩
+            rw [List.countP_cons (a := y)]
+            omega
+
+/-- the rotation bound is never the reason of a failure: whatever a settle returns with some fuel it
+    returns with every fuel above the length of the suffix -/
+theorem settle_fuel (known available : List String) (f f' : Nat) (s r : List TNode)
+    (hs : settle known available f s = some r) (hf : s.length < f') :
+    settle known available f' s = some r := by
+  cases s with
+  | nil =>
+    cases f with
+    | zero => simp [settle] at hs
+    | succ f =>
+      cases f' with
+      | zero => omega
+      | succ f' => rw [settle_nil] at hs ⊢; exact hs
+  | cons h rest =>
+    exact settle_fuel_aux known available f f' h [] rest r (by simp) hs (by simp at hf; omega)
+
+theorem settle_fuel_eq (known available : List String) (f f' : Nat) (s : List TNode)
+    (hf : s.length < f) (hf' : s.length < f') :
+    settle known available f s = settle known available f' s := by
+  cases h : settle known available f s with
+  | some r => exact (settle_fuel _ _ _ _ _ _ h hf').symm
+  | none =>
+    cases h' : settle known available f' s with
+    | none => rfl
+    | some r => rw [settle_fuel _ _ _ _ _ _ h' hf] at h; cases h
+
+/-- `len(nodes)` in the rotation bound may be replaced by any larger number -/
+theorem sortFrom_total (T D : Nat) (available : List String) (hDT : D ≤ T) :
+    ∀ (k : Nat) (s : List TNode) (known : List String), s.length ≤ D →
+      sortFrom T available k s known = sortFrom D available k s known
+  | 0, _, _, _ => rfl
+  | k + 1, s, known, hl => by
+    simp only [sortFrom]
+    rw [settle_fuel_eq known available (T + 1) (D + 1) s (by omega) (by omega)]
+    cases hs : settle known available (D + 1) s with
+    | none => rfl
+    | some r =>
+      cases r with
+      | nil => rfl
+      | cons m r' =>
+        have hlen : (m :: r').length = s.length := (settle_perm _ _ _ _ _ hs).length_eq
+        simp only
+        rw [sortFrom_total T D available hDT k r' _ (by simp at hlen; omega)]
+
+theorem availableOf_incs (incs defs : List TNode) (hi : ∀ n ∈ incs, n.incl = true) :
+    availableOf (incs ++ defs) = availableOf defs := by
+  have : incs.filter (fun n => !n.incl) = [] := by
+    apply List.filter_eq_nil_iff.2
+    intro n hn; simp [hi n hn]
+  simp [availableOf, List.filter_append, this]
+
+theorem sortFrom_incs (total : Nat) (available : List String) (defs : List TNode) (k : Nat) :
+    ∀ (incs : List TNode) (known : List String),
+      (∀ n ∈ incs, n.incl = true ∧ n.deps = []) →
+      sortFrom total available (incs.length + k) (incs ++ defs) known
+        = (sortFrom total available k defs known).map (incs ++ ·)
+  | [], known, _ => by simp
+  | i :: incs, known, hi => by
+    have hi0 := hi i (by simp)
+    have hset : settle known available (total + 1) (i :: (incs ++ defs)) = some (i :: (incs ++ defs)) := by
+      simp [settle, rotate_cons, pick, hi0.2]
+    have : (i :: incs).length + k = (incs.length + k) + 1 := by simp; omega
+    rw [this]
+    simp only [List.cons_append, sortFrom, hset, hi0.1, if_true]
+    rw [sortFrom_incs total available defs k incs known (fun n hn => hi n (List.mem_cons_of_mem _ hn))]
+    simp [Option.map_map, Function.comp_def]
+
+/-- Include nodes written first (where the isar and prophy parsers put them) stay first and do not
+    influence the order of the definitions.  General form: nothing is asked of `defs`. -/
+theorem C15_includes_inert' (incs defs : List TNode)
+    (hi : ∀ n ∈ incs, n.incl = true ∧ n.deps = []) :
+    sort (incs ++ defs) = (sort defs).map (incs ++ ·) := by
+  unfold sort
+  rw [availableOf_incs incs defs (fun n hn => (hi n hn).1), List.length_append,
+    sortFrom_incs _ _ defs defs.length incs builtins hi,
+    sortFrom_total (incs.length + defs.length) defs.length _ (by omega) _ _ _ (Nat.le_refl _)]
+
+/-- the statement of the task (the hypothesis on `defs` is not needed) -/
+theorem C15_includes_inert (incs defs : List TNode)
+    (hi : ∀ n ∈ incs, n.incl = true ∧ n.deps = [])
+    (_hd : ∀ n ∈ defs, n.incl = false) :
+    sort (incs ++ defs) = (sort defs).map (incs ++ ·) :=
+  C15_includes_inert' incs defs hi
+
 /-- non-vacuity: a three-node DAG given in reverse order is sorted -/
-example : (sort [⟨"C", ["B", "A"]⟩, ⟨"B", ["A", "u8"]⟩, ⟨"A", []⟩]).map (·.map (·.name)) = some ["A", "B", "C"] := by
+example : (sort [⟨"C", ["B", "A"], false⟩, ⟨"B", ["A", "u8"], false⟩, ⟨"A", [], false⟩]).map (·.map (·.name))
+    = some ["A", "B", "C"] := by
   decide
 /-- a definition cycle is reported (the sort returns, with an error) -/
-example : sort [⟨"A", ["B"]⟩, ⟨"B", ["A"]⟩] = none := by decide
-
+example : sort [⟨"A", ["B"], false⟩, ⟨"B", ["A"], false⟩] = none := by decide
+/-- two Include nodes in the list: they keep their places, the definitions are sorted behind them -/
+example : (sort [⟨"i1", [], true⟩, ⟨"i2", [], true⟩, ⟨"C", ["B"], false⟩, ⟨"B", ["A"], false⟩, ⟨"A", [], false⟩]).map
+    (·.map (·.name)) = some ["i1", "i2", "A", "B", "C"] := by decide
+/-- an Include node named like a definition another node depends on is not taken for that definition -/
+example : sort [⟨"S", [], true⟩, ⟨"T", ["S"], false⟩, ⟨"S", [], false⟩]
+    = some [⟨"S", [], true⟩, ⟨"S", [], false⟩, ⟨"T", ["S"], false⟩] := by decide
+/-- a definition that depends on its own name is sorted when an earlier definition carries the name too -/
+example : sort [⟨"A", ["A"], false⟩, ⟨"A", [], false⟩] = some [⟨"A", [], false⟩, ⟨"A", ["A"], false⟩] := by decide
 
 end Prophy.C15
+
+#print axioms Prophy.C15.C15_sort_permutation
+#print axioms Prophy.C15.C15_sort_ordered
+#print axioms Prophy.C15.C15_sort_ordered_nodes
+#print axioms Prophy.C15.C15_sort_ordered_definitions
+#print axioms Prophy.C15.C15_sort_ordered_definitions_idx
+#print axioms Prophy.C15.C15_sort_no_self_dependency
+#print axioms Prophy.C15.settle_fuel
+#print axioms Prophy.C15.C15_includes_inert
